@@ -740,7 +740,11 @@ def gen_B(tier):
     for code, xs in [(7, [1000.0, 1000.5, 1001.0, 1001.5]), (7, [0.25, 13.25, 1e300, 39.25, 52.25]),
                      (2, [0.5, 13.5, 3.4028234663852886e38, 39.5, 52.5]), (7, [k / 10 for k in range(1, 8)]),
                      (7, [2000.0 - k / 10 for k in range(6)]), (2, [f32(k / 10) for k in range(1, 8)]), (7, [5.0, 5.0, 5.0]),
-                     (7, [3.0, 2.0, 1.0, 1.0, 7.5])]:
+                     (7, [3.0, 2.0, 1.0, 1.0, 7.5]),
+                     # almost regular: the third value departs from the run by far more than rounding (microsecond jitter
+                     # on a TIME axis) but by less than 1e-9 relative - it must not be absorbed into the run
+                     (7, [43200.0, 43200.5, 43201.000004, 43201.5, 43202.0]), (7, [1.0, 2.0, 3.0000000001, 4.0, 5.0]),
+                     (7, [1e6, 1e6 + 1, 1e6 + 2.0001, 1e6 + 3])]:
         yield {'part': 'B', 'src': 'xs', 'code': code, 'xs': xs}
     for i, (files, _ins) in enumerate(c03.gen_F(tier)):
         if i % (1 if tier == 'thorough' else 7) == 0:     # set names made 7-bit: the structure of the index is judged
